@@ -52,4 +52,14 @@ DecodeFrom(bs, p) ==
 Decode(bs) == DecodeFrom(bs, 1)
 Valid(bs)  == Decode(bs).ok
 
+
+\* incremental decoding of one chunk given the bytes pending from the previous one: [ok, chars, pending]
+RECURSIVE Consume(_, _, _)
+Consume(chunk, pend, acc) ==
+    IF chunk = <<>> THEN [ok |-> TRUE, chars |-> acc, pending |-> pend]
+    ELSE LET s == Append(pend, chunk[1]) IN
+         IF WellFormed(s) THEN Consume(Tail(chunk), <<>>, Append(acc, CodeOf(s)))
+         ELSE IF ViablePrefix(s) THEN Consume(Tail(chunk), s, acc)
+         ELSE [ok |-> FALSE, chars |-> acc, pending |-> <<>>]
+
 =============================================================================
